@@ -436,7 +436,8 @@ def table_hist_job(job):
                 else:
                     k = rng.randrange(len(cols))
                     op = ['delete_column_obj', k]
-                    member = any(cols[k] is x or cols[k] == x for x in t.columns)
+                    # membership by what the column says (not by the implementation's own __eq__)
+                    member = any(cols[k] is x or (cols[k].name == x.name and str(cols[k].type) == str(x.type)) for x in t.columns)
                     got = t.delete_column(cols[k])
                     if not member:
                         fails.append('delete_column of an absent column succeeded')
@@ -491,14 +492,14 @@ def table_hist_job(job):
                 else:
                     k = rng.randrange(len(idxs))
                     op = ['delete_index_obj', k]
-                    member = any(idxs[k] is x or idxs[k] == x for x in t.indexes)
+                    def full_eq(a, b):
+                        return (len(a.subjects) == len(b.subjects) and all(x is y or (not isinstance(x, Column) and str(x) == str(y)) for x, y in zip(a.subjects, b.subjects))
+                                and (a.name, a.unique, a.type, a.pk, a.note.text, a.comment) == (b.name, b.unique, b.type, b.pk, b.note.text, b.comment))
+                    member = any(idxs[k] is x or full_eq(idxs[k], x) for x in t.indexes)
                     got = t.delete_index(idxs[k])
                     if not member:
                         fails.append('delete_index of an absent index succeeded')
                     else:
-                        def full_eq(a, b):
-                            return (len(a.subjects) == len(b.subjects) and all(x is y or (not isinstance(x, Column) and str(x) == str(y)) for x, y in zip(a.subjects, b.subjects))
-                                    and (a.name, a.unique, a.type, a.pk, a.note.text, a.comment) == (b.name, b.unique, b.type, b.pk, b.note.text, b.comment))
                         # the member that goes is the argument itself, or an earlier member equal to it in EVERY attribute
                         if not (got is idxs[k] or full_eq(got, idxs[k])) or got.table is not None:
                             fails.append('delete_index removed an index that is not the argument nor equal to it in every attribute (note, comment, flags), or left it attached')
